@@ -234,7 +234,7 @@ def run(ctx):
                     e.append(("arc-from-raw", c))
                 elif c.is_("Arc<T>::decrement_strong_count", "Arc::decrement_strong_count"):
                     e.append(("arc-decrement", c))
-                elif c.is_(*ARC_ACQ):
+                elif c.is_(*ARC_ACQ) or ((c.resolved or "").startswith("<alloc::sync::Arc<") and (c.resolved or "").endswith("Clone>::clone")):
                     e.append(("arc-increment", c))
                 elif c.is_("Arc<T>::into_raw", "Arc::into_raw", "Arc<T, A>::into_raw"):
                     e.append(("arc-into-raw", c))
@@ -324,6 +324,17 @@ def run(ctx):
                             okargs = is_param(a[0], 0) and is_param(a[1], 1)
                             inner = effects(list(cs.body.calls())) if cs else []
                             iok = cs is not None and [e[0] for e in inner] == ["arc-increment"] and is_borrowed_from_parts(arg_syms(inner[0][1])[0]) and _is_same_parts(strip_sym(Sym(cs).local(0))) and not [r for r in cs.body.return_blocks() if r in cs.body.reachable(0, cut={inner[0][1].bb})]
+                            if not iok and cs is not None and [e[0] for e in inner] == ["arc-from-raw", "forget", "arc-increment"]:
+                                # the same +1 spelled as std defines increment_strong_count: adopt the existing reference into
+                                # an Arc that is never dropped (ManuallyDrop), clone it, hand the clone over as the new parts
+                                fr, fg, inc = inner[0][1], inner[1][1], inner[2][1]
+                                adopt = is_borrowed_from_parts(arg_syms(fr)[0])
+                                kept = sym_is_call(sym_through(arg_syms(fg)[0]), "Arc<T>::from_raw", "Arc::from_raw") and fg.is_("ManuallyDrop<T>::new")
+                                from_md = any(sym_is_call(x, "ManuallyDrop<T>::new") for x in sym_walk(arg_syms(inc)[0]) if isinstance(x, tuple))
+                                rs = strip_sym(Sym(cs).local(0))
+                                handed = sym_is_call(rs, "Cowable::shared_into_parts") and any(x is not None and isinstance(x, tuple) and x and x[0] == "call" and x[1] == (inc.resolved or inc.callee) for x in sym_walk(rs[2][0]))
+                                every = not [r for r in cs.body.return_blocks() if not cs.body.blocks[r].get("cleanup") and r in cs.body.reachable(0, cut={inc.bb})]
+                                iok = adopt and kept and from_md and handed and every
                             ok = okargs and iok and sym_is_call(ret, "cow::clone_shared")
                             detail = "increments the strong count once on every path and reuses the parts" if ok else "clone_shared does not increment the strong count exactly once on every path"
                         elif names == ["arc-increment"] and is_borrowed_from_parts(arg_syms(eff[0][1])[0]):
